@@ -6,10 +6,19 @@
    get_n_best (Model/GetNBest.v), CondorcetWinner / SmithSet (Model/Condorcet.v).
    Executable definitions only.  Ballot weights are integers (Dict[RankedVoteType, int]).
 
-   [fx] selects the elimination step: false = the code as written on the pinned tree (a Tie
-   object returned by eliminate_one leaks into the candidate subset), true = the code with
-   fixes/C05-hybrid-elimination-tie.diff (a tie among the candidates to eliminate is the
-   declared refusal NotImplementedError). *)
+   Three flags select which repairs the modelled code has (false = the code as written on the
+   pinned tree, so that the old behaviour stays expressible and its refutations stay theorems):
+   [fx] the elimination step: false = a Tie object returned by eliminate_one leaks into the
+        candidate subset, true = fixes/C05-hybrid-elimination-tie.diff (a tie among the candidates
+        to eliminate is the declared refusal NotImplementedError);
+   [sc] a profile without a pairwise contest: false = the empty answer of CondorcetWinner / the
+        set selector is taken as it is (IndexError from eliminate_one follows), true =
+        fixes/C05-hybrid-single-candidate.diff (Benham.get_condorcet_winner answers with a
+        candidate that stands alone; TidemanAlternative.get_winner_set falls back to all
+        candidates of the round when the set selector returns nothing);
+   [tr] the tiers of TidemanAlternative after the first: false = RANKED_SUBSETTER.convert is
+        called without the subset (TypeError), true = fixes/C05-tideman-tiers.diff (the votes
+        are restricted to the still eligible candidates). *)
 From Coq Require Import ZArith QArith List Bool Arith.
 From VL Require Import Prelude.Sx Prelude.PyDict Prelude.GDict Model.GetNBest Model.Convert Model.STV Model.Condorcet.
 Import ListNotations.
@@ -66,9 +75,17 @@ Inductive hres :=
 | H_nie              (* NotImplementedError *)
 | H_fuel.            (* model out of fuel: never expected *)
 
+(* ---- Benham.get_condorcet_winner (L733-742): the first entry of CondorcetWinner's answer; with [sc] a candidate
+   that stands alone is returned before the pairwise dictionary (empty then) is looked at *)
+Definition benham_cw (sc : bool) (cur : rvotes) : list C :=
+  match all_ranked_candidates (qv cur) with
+  | [c] => if sc then [c] else condorcet_winner (pairwise cur)
+  | _ => condorcet_winner (pairwise cur)
+  end.
+
 (* ---- Benham.evaluate (L704-718), n_seats = 1 *)
-Fixpoint benham_loop (fx : bool) (fuel : nat) (votes0 cur : rvotes) : hres :=
-  match condorcet_winner (pairwise cur) with
+Fixpoint benham_loop (fx sc : bool) (fuel : nat) (votes0 cur : rvotes) : hres :=
+  match benham_cw sc cur with
   | c :: _ => H_ok [Cand c]
   | [] =>
       match fuel with
@@ -80,23 +97,31 @@ Fixpoint benham_loop (fx : bool) (fuel : nat) (votes0 cur : rvotes) : hres :=
               match remains with
               | [_] => H_ok remains
               | _ => if fx && has_tie remains then H_nie
-                     else benham_loop fx f votes0 (subset_votes (plain remains) votes0)
+                     else benham_loop fx sc f votes0 (subset_votes (plain remains) votes0)
               end
           end
       end
   end.
-Definition benham (fx : bool) (votes : rvotes) : hres :=
-  benham_loop fx (S (S (length (all_ranked_candidates (qv votes))))) votes votes.
+Definition benham (fx sc : bool) (votes : rvotes) : hres :=
+  benham_loop fx sc (S (S (length (all_ranked_candidates (qv votes))))) votes votes.
 
-(* ---- TidemanAlternative.run_tier (L674-689) with the default SmithSet selector *)
-Fixpoint tideman_tier (fx : bool) (fuel : nat) (round : rvotes) : res C + hres :=
+(* ---- TidemanAlternative.get_winner_set (L695-705) with the default SmithSet selector; with [sc] an empty answer
+   (no pairwise contest) is replaced by all candidates of the round *)
+Definition winner_set (sc : bool) (round : rvotes) : list C :=
+  match smith_schwartz (pairwise round) true with
+  | [] => if sc then all_ranked_candidates (qv round) else []
+  | sset => sset
+  end.
+
+(* ---- TidemanAlternative.run_tier (L674-689) *)
+Fixpoint tideman_tier (fx sc : bool) (fuel : nat) (round : rvotes) : res C + hres :=
   match round with
   | [] => inr H_nie                                  (* while round_votes: ... raise NotImplementedError *)
   | _ =>
       match fuel with
       | O => inr H_fuel
       | S f =>
-          match smith_schwartz (pairwise round) true with
+          match winner_set sc round with
           | [w] => inl (Cand w)
           | sset =>
               let round1 := subset_votes sset round in
@@ -106,21 +131,37 @@ Fixpoint tideman_tier (fx : bool) (fuel : nat) (round : rvotes) : res C + hres :
                   if fx && has_tie rem then inr H_nie
                   else match rem with
                        | [r] => inl r
-                       | _ => tideman_tier fx f (subset_votes (plain rem) round1)
+                       | _ => tideman_tier fx sc f (subset_votes (plain rem) round1)
                        end
               end
           end
       end
   end.
 
-(* TidemanAlternative.evaluate (L656-672): the first tier; a further tier is the TypeError of the pinned tree *)
-Definition tideman_alt (fx : bool) (votes : rvotes) (n_seats : nat) : hres :=
-  let cands := all_ranked_candidates (qv votes) in
-  match tideman_tier fx (S (S (length cands))) votes with
-  | inr e => e
-  | inl (TieR _) => H_key
-  | inl (Cand w) =>
-      if cmem w cands then
-        if Nat.eqb 1 n_seats || forallb (fun c => ceqb c w) cands then H_ok [Cand w] else H_type
-      else H_key
+(* the fuel one tier is run with: every round of a tier drops a candidate *)
+Definition tier_fuel_of (round : rvotes) : nat := S (S (length (all_ranked_candidates (qv round)))).
+
+(* ---- TidemanAlternative.evaluate (L656-672): tier after tier; [elig] = eligible_set (a Python set: only membership
+   and emptiness are used), [acc] = ranked_set; [k] bounds the number of tiers (every tier removes a candidate from [elig]).
+   Without [tr] a further tier is the TypeError of the pinned tree. *)
+Fixpoint tideman_loop (fx sc tr : bool) (k : nat) (tier_votes : rvotes) (elig : list C) (n_seats : nat) (acc : list (res C)) : hres :=
+  match k with
+  | O => H_fuel
+  | S k' =>
+      match tideman_tier fx sc (tier_fuel_of tier_votes) tier_votes with
+      | inr e => e
+      | inl (TieR _) => H_key                        (* eligible_set.remove(Tie object) *)
+      | inl (Cand w) =>
+          if cmem w elig then
+            let acc' := acc ++ [Cand w] in
+            let elig' := filter (fun c => negb (ceqb c w)) elig in
+            if Nat.eqb (length acc') n_seats || (match elig' with [] => true | _ => false end) then H_ok acc'
+            else if tr then tideman_loop fx sc tr k' (subset_votes elig' tier_votes) elig' n_seats acc'
+            else H_type
+          else H_key
+      end
   end.
+
+Definition tideman_alt (fx sc tr : bool) (votes : rvotes) (n_seats : nat) : hres :=
+  let cands := all_ranked_candidates (qv votes) in
+  tideman_loop fx sc tr (S (length cands)) votes cands n_seats [].
